@@ -177,6 +177,38 @@ def run(facts, tier):
                 dr.violate(f"hash-iter/{b['def']}/{callee}", f"`{b['def']}` iterates a hash container (`{callee}` on `{self_ty[:80]}`): iteration order depends on the hash seed", where=t.get("sp"))
     rules.append(dr.finish())
 
+    # ---- D19.7 results must not depend on how many owners a value has
+    d7 = Rule("D19.7", "a result never depends on whether a value is shared: reference counts are observed only by the copy-on-write idioms (make_mut, try_unwrap-or-clone), by the pointer-equality fast path whose outcome equals the structural comparison, and by the iterative Drop of the list types", floor=10)
+    RC_API = re.compile(r"^alloc::(rc::Rc|sync::Arc)::<T(, A)?>::(strong_count|weak_count|get_mut|get_mut_unchecked|try_unwrap|into_inner|ptr_eq|is_unique|make_mut|unwrap_or_clone|downgrade)$")
+    # (file, API) -> how many source sites are reviewed, and why they are transparent
+    RC_OK = {
+        ("jaq-json/src/lib.rs", "make_mut"): (7, "copy-on-write: the result equals the result on a private copy"),
+        ("jaq-json/src/lib.rs", "try_unwrap"): (2, "unwrap-or-clone: yields the same value either way"),
+        ("jaq-core/src/rc_list.rs", "try_unwrap"): (1, "unwrap-or-clone in List::pop"),
+        ("jaq-json/src/num.rs", "ptr_eq"): (2, "fast path: identical decimal text compares equal either way"),
+        ("jaq-core/src/rc_lazy_list.rs", "get_mut"): (1, "iterative Drop of the lazy list (no observable result)"),
+    }
+    sites = collections.defaultdict(set)
+    for c, b in facts.all_mir():
+        for bb in b["bbs"]:
+            t = bb["t"]
+            if t.get("k") != "Call" or "fn" not in t or bb.get("cleanup"):
+                continue
+            m = RC_API.match(t["fn"])
+            if m:
+                sites[(t["sp"].split(":")[0], m.group(3))].add((b["def"], t["sp"]))
+    for key, ss in sorted(sites.items()):
+        ok = RC_OK.get(key)
+        for s_ in ss:
+            d7.examined((key, s_), True)
+        if len(d7.samples) < 5:
+            d7.samples.append({"file": key[0], "api": key[1], "sites": len(ss), "reviewed": ok[1] if ok else None})
+        if ok is None:
+            d7.violate(f"{key[0]}/{key[1]}", f"`Rc::{key[1]}` is used in {key[0]} ({sorted(x[0] for x in ss)[0]}): behaviour could depend on whether the value is shared between owners/threads", where=sorted(ss)[0][1])
+        elif len(ss) > ok[0]:
+            d7.violate(f"{key[0]}/{key[1]}/count", f"{len(ss) - ok[0]} new use(s) of `Rc::{key[1]}` in {key[0]} ({len(ss)} found, {ok[0]} reviewed)", where=sorted(ss)[-1][1], detail=sorted(ss))
+    rules.append(d7.finish())
+
     # ---- A19.6 ambient inputs reachable during execution are exactly those the statement sets aside
     import c06
     g = Mono(facts.mono())
